@@ -6,6 +6,7 @@ use crate::engine::{Args, Ctx, ReplayDoc};
 
 pub mod c13;
 pub mod c13b;
+pub mod c14;
 pub mod c19;
 pub mod c20;
 pub mod c11;
@@ -25,6 +26,7 @@ pub fn run(args: &Args) -> ! {
         "C16" => model_props::run_c16(args),
         "C20" => c20::run(args),
         "C19" => c19::run(args),
+        "C14" => c14::run(args),
         p => {
             eprintln!("INFRA: unknown property '{}'", p);
             std::process::exit(2)
@@ -54,6 +56,7 @@ pub fn replay_one(ctx: &Ctx, doc: &ReplayDoc) {
         "C04" | "C07" | "C15" | "C16" => model_props::replay_one(ctx, doc),
         "C20" => c20::replay_one(ctx, doc),
         "C19" => c19::replay_one(ctx, doc),
+        "C14" => c14::replay_one(ctx, doc),
         p => ctx.infra_error(format!("unknown property '{}' in replay file", p)),
     }
 }
@@ -63,6 +66,7 @@ pub fn worker_dispatch(sub: &str, v: Value) -> Value {
     match sub.split('.').next().unwrap_or("") {
         "C13" => c13::worker(sub, v),
         "C19" => c19::worker(sub, v),
+        "C14" => c14::worker(sub, v),
         _ => Value::Null,
     }
 }
